@@ -816,15 +816,21 @@ func (hv *Hash) Delete(key px.Value) px.List {
 }
 
 func (hv *Hash) DeleteAll(keys px.List) px.List {
-	entries := hv.entries
 	valueIndex := hv.valueIndex()
+	doomed := make(map[int]bool)
 	keys.Each(func(key px.Value) {
 		if idx, ok := valueIndex[px.ToKey(key)]; ok {
-			entries = append(hv.entries[:idx], hv.entries[idx+1:]...)
+			doomed[idx] = true
 		}
 	})
-	if len(hv.entries) == len(entries) {
+	if len(doomed) == 0 {
 		return hv
+	}
+	entries := make([]*HashEntry, 0, len(hv.entries)-len(doomed))
+	for idx, entry := range hv.entries {
+		if !doomed[idx] {
+			entries = append(entries, entry)
+		}
 	}
 	return WrapHash(entries)
 }
